@@ -13,7 +13,7 @@ M = {
     "c01_drop_dAdt_normal_current": ("C01", "tdgl/solver/solver.py", "normal_current = -(operators.mu_gradient @ mu) - dA_dt", "normal_current = -(operators.mu_gradient @ mu)"),
     "c01_terminal_share_others_only_first": ("C01", "tdgl/solver/solver.py", "current_density = (-1 / terminal.length) * sum(", "current_density = (-1 / (terminal.length * (1 + 1e-3 * (terminal.name == self.terminal_names[-1])))) * sum("),
     "c02_drop_temporal_link_on_z": ("C02", "tdgl/solver/solver.py", "z = U * gamma**2 / 2 * psi", "z = gamma**2 / 2 * psi"),
-    "c02_other_root": ("C02", "tdgl/solver/solver.py", "new_sq_psi = (2 * w2) / (two_c_1 + xp.sqrt(discriminant))", "new_sq_psi = (2 * w2) / (two_c_1 - xp.sqrt(discriminant) + 1e-300)"),
+    "c02_other_root": ("C02", "tdgl/solver/solver.py", "denominator = two_c_1 + xp.sqrt(discriminant)", "denominator = two_c_1 - xp.sqrt(discriminant) + 1e-300"),
     "c02_refuse_on_le": ("C02", "tdgl/solver/solver.py", "if xp.any(discriminant < 0):", "if xp.any(discriminant < 1e-3):"),
     "c05_save_after_update": ("C05", "tdgl/solver/runner.py", "                    if self.time >= end_time:\n                        break\n                    # Run time step.", "                    # Run time step."),
     "c05_clear_buffer_late": ("C05", "tdgl/solver/runner.py", "                        if save:\n                            save_step(i)\n                        self.running_state.clear()", "                        if save:\n                            save_step(i)\n                        if i > self.options.save_every:\n                            self.running_state.clear()"),
